@@ -95,6 +95,7 @@ class St:
 # =========================================================================================================
 # (a) dH
 
+@rc.guard_build
 class DH(System):
     name = 'c06.dH'
     def warm(self): _load()
@@ -124,7 +125,7 @@ class DH(System):
         basis = 'mol'
         if route == 'wt-direct':
             mw = rc.MW(); d = {k: x * mw[POS[k]] for k, x in d.items()}; basis = 'wt'
-        st.rxn = t.Reaction(rc.as_string(d, st.assign), reactant=r, X=1.0, chemicals=_chems, basis=basis)
+        st.rxn = rc.build_reaction(rc.as_string(d, st.assign), r, 1.0, _chems, basis)
         if route == 'wt-set': st.rxn.basis = 'wt'
         st.last = None
         return st
@@ -206,6 +207,7 @@ class DH(System):
 # =========================================================================================================
 # (a') dH of sums / reductions of phase-tagged reactions in which one chemical occurs in two phases
 
+@rc.guard_build
 class DHSum(System):
     """Two routes of the same stoichiometry on the same reactant that differ in the phase of ONE species (e.g. water leaving as
     liquid in one route and as vapour in the other), both declared with `phases='gls'` so that they can be combined.  The heat of
@@ -243,7 +245,7 @@ class DHSum(System):
         st.asg_a = {k: rc.NAT_PHASE[k] for k in d} if len(config) == 5 else dict(zip(d, config[5]))
         st.asg_b = dict(st.asg_a); st.asg_b[sp] = p2
         def mk(asg, X):
-            rx = t.Reaction(rc.as_string(d, asg), reactant=r, X=X, chemicals=_chems, phases='gls')
+            rx = rc.build_reaction(rc.as_string(d, asg), r, X, _chems, phases='gls')
             if route != 'mol': rx.basis = 'wt'
             return rx
         st.a = mk(st.asg_a, 0.3); st.b = mk(st.asg_b, 0.5)
@@ -290,6 +292,129 @@ class DHSum(System):
     def outcome(self, st, a, obs):
         ri, r, sp, p2, route = st.config[:5]
         return repr((a[0], route, _C[sp].phase_ref, st.asg_a[sp], p2))
+
+
+# =========================================================================================================
+# (a'') dH read again after the reaction object (or a copy / multiple / reversal of it) was modified in place
+
+DHH_FAMILIES = [
+    # (tag, reactant, (menu name a, menu name b))
+    ('nat', 'H2O', ('elec', 'wgs')), ('nat', 'O2', ('h2comb', 'ch4comb')), ('wg', 'O2', ('h2comb', 'ch4comb')),
+    ('nat', 'Glucose', ('ferment', 'gluccomb')), ('none', 'CH4', ('ch4comb', 'partox')), ('none', 'Glucose', ('ferment', 'acet')),
+    ('nat', 'Ethanol', ('etox', 'etcomb')), ('vap', 'Ethanol', ('etox', 'etreform')),
+]
+
+@rc.guard_build
+class DHHistory(System):
+    """State: two real reactions a, b on one reactant (phase-tagged or phase-less).  Every action ends by READING a.dH and b.dH and
+    comparing them with the model (i.e. with a freshly built equivalent):  dH = sum_slots E * (Hf + latent(phase)) [/ MW_reactant on wt],
+    E = X * nu the molar extent vector of the reaction.  Actions modify `a` in place (basis setter, +=, -=, X, *=) or take a copy /
+    multiple / negative / reversal of `a` and modify THAT in place (basis setter, which rescales the stoichiometry array in place) —
+    after which `a` must be unchanged.  Depth >= 2 gives read -> mutate -> read again."""
+    name = 'c06.dHhist'
+    nontrivial_per_config = True
+    def warm(self): _load()
+    def reset_globals(self): rc.reset_reaction_globals()
+    def depth(self, tier): return 3 if tier == 'quick' else 4
+
+    def configs(self, tier, seed):
+        cfgs = [(i, b0) for i in range(len(DHH_FAMILIES)) for b0 in ('mol', 'wt')]
+        if tier == 'quick': cfgs = [c for c in cfgs if c[0] < 5]
+        k = seed % len(cfgs)
+        return cfgs[k:] + cfgs[:k]
+
+    def build(self, config):
+        i, b0 = config
+        tag, r, (na, nb) = DHH_FAMILIES[i]
+        tg = None if tag == 'none' else tag
+        st = St(); st.config = config
+        route = 'mol' if b0 == 'mol' else 'wt-set'
+        st.a = rc.make_reaction(MENU_INDEX[na], r, 0.3, 'str', tg, route)
+        st.b = rc.make_reaction(MENU_INDEX[nb], r, 0.5, 'str', tg, route)
+        ra = rc.RefRxn(MENU_INDEX[na], r, 0.3, tg); rb = rc.RefRxn(MENU_INDEX[nb], r, 0.5, tg)
+        st.Ea = ra.nu * 0.3; st.Eb = rb.nu * 0.5; st.nua = ra.nu
+        st.ridx = ra.ridx; st.phases = ra.phases
+        st.basis_a = b0; st.basis_b = b0
+        st.reactant = r
+        # heat per slot: Hf + latent of the tagged phase
+        h = np.array([float(_C[ID].Hf) for ID in IDS])
+        if st.phases:
+            st.h = np.array([[h[j] + latent(IDS[j], p) for j in range(N)] for p in st.phases])
+        else: st.h = h
+        st.mutated = 0
+        return st
+
+    def actions(self, st):
+        acts = [('read',), ('basis', 'wt'), ('basis', 'mol'), ('iadd',), ('isub',), ('setX', 0.6), ('imul', 2.0),
+                ('copy-rebase',), ('div-rebase',), ('neg-rebase',), ('copy-copy-rebase',)]
+        d = MENU[MENU_INDEX[DHH_FAMILIES[st.config[0]][2][0]]][1]
+        prods = [k for k, x in d.items() if x > 0]
+        if abs(-float(st.Ea[st.ridx]) - 0.3) < 1e-12 and np.allclose(st.Ea, st.nua * 0.3):      # `a` still is its original stoichiometric line
+            acts.append(('back-rebase', prods[0]))
+        return acts
+
+    def step(self, st, a):
+        op = a[0]
+        match = dict(op=op, tagged=bool(st.phases), basis=st.basis_a)
+        db0 = rc.rxn_digest(st.b); da0 = rc.rxn_digest(st.a)
+        other = lambda b: 'wt' if b == 'mol' else 'mol'
+        try:
+            if op == 'read': pass
+            elif op == 'basis':
+                st.a.basis = a[1]; st.basis_a = a[1]
+            elif op in ('iadd', 'isub'):
+                sign = 1.0 if op == 'iadd' else -1.0
+                E = st.Ea + sign * st.Eb
+                if abs(E[st.ridx]) <= 1e-12: raise Rejected('degenerate:zero net conversion', cut=True)
+                if op == 'iadd': st.a += st.b
+                else: st.a -= st.b
+                st.Ea = E
+            elif op == 'setX':
+                X0 = -float(st.Ea[st.ridx])
+                if X0 == 0: raise Rejected('degenerate', cut=True)
+                st.a.X = a[1]; st.Ea = st.Ea / X0 * a[1]
+            elif op == 'imul':
+                st.a *= a[1]; st.Ea = st.Ea * a[1]
+            elif op == 'copy-rebase':
+                c = st.a.copy(); c.basis = other(st.basis_a)
+            elif op == 'copy-copy-rebase':
+                c = st.a.copy(st.basis_a).copy(); c.basis = other(st.basis_a); c.basis = st.basis_a
+            elif op == 'div-rebase':
+                c = st.a / 2; c.basis = other(st.basis_a)
+            elif op == 'neg-rebase':
+                c = -st.a; c.basis = other(st.basis_a)
+            elif op == 'back-rebase':
+                c = st.a.backwards(reactant=a[1]); c.basis = other(st.basis_a)
+            else: raise ValueError(a)
+        except Rejected: raise
+        except Exception as e:
+            raise Violation('unexpected-exception', f'{type(e).__name__}: {e}', match=dict(match, exc=type(e).__name__))
+        inplace = op in ('basis', 'iadd', 'isub', 'setX', 'imul')
+        if inplace: st.mutated += 1
+        if rc.rxn_digest(st.b) != db0:
+            raise Violation('operand-mutated', f'{op} changed the other reaction b', match=dict(match, victim='b'))
+        if not inplace and rc.rxn_digest(st.a) != da0:
+            raise Violation('operand-mutated', f'{op}: modifying the copy / multiple / reversal of a in place changed a itself',
+                            match=dict(match, victim='a'))
+        mw_r = rc.MW()[st.ridx[-1]]
+        for nm, rx, E, basis in (('a', st.a, st.Ea, st.basis_a), ('b', st.b, st.Eb, st.basis_b)):
+            want = float((E * st.h).sum())
+            if basis == 'wt': want /= mw_r
+            try: got = rx.dH
+            except Exception as e:
+                raise Violation('unexpected-exception', f'dH: {type(e).__name__}: {e}', match=dict(match, exc=type(e).__name__, where='dH'))
+            if rx._basis != basis:
+                raise Violation('dH-value', f'{nm} is on basis {rx._basis}, expected {basis}', match=dict(match, how='basis', of=nm))
+            if np.ndim(got) != 0 or abs(float(got) - want) > 1e-9 * max(abs(want), 1.0):
+                raise Violation('dH-value', f'after {op}: dH of {nm} = {np.asarray(got).tolist()!r}; a freshly built equivalent gives {want!r}',
+                                match=dict(match, how='after-in-place' if st.mutated else 'value', of=nm),
+                                residual=abs(float(np.ravel(got)[0]) - want) / max(abs(want), 1.0))
+        return (op, fx.r12(float(st.a.dH)))
+
+    def canon(self, st):
+        return (st.config, rc.rxn_digest(st.a), rc.rxn_digest(st.b), st.basis_a, tuple(fx.r12(x) for x in st.Ea.ravel()))
+    def nontrivial(self, st, a, obs): return st.mutated >= 1
+    def outcome(self, st, a, obs): return repr((DHH_FAMILIES[st.config[0]][0], st.config[1], st.basis_a, a[0], min(st.mutated, 2)))
 
 # =========================================================================================================
 # reaction objects for the stream clauses
@@ -442,6 +567,7 @@ def fed_amounts(tree, n0, wt):
     return out
 
 
+@rc.guard_build
 class Iso(System):
     name = 'c06.iso'
     def warm(self): _load()
@@ -481,7 +607,8 @@ class Iso(System):
         # the same stream defined on a RE-ORDERED property package (the reaction keeps its own `chemicals=`)
         for ph in phases:
             for T in ((350.0,) if self.tier == 'quick' else Ts):
-                for xp in (('p3',) if self.tier == 'quick' else ('p3', 'one')):
+                # X = 1 exactly: a chemical driven to zero must really be gone after the flows are mapped back to the stream's package
+                for xp in (('p3', 'one') if self.tier == 'quick' else ('p3', 'one', 'mix', 'zero')):
                     cases.append((ph + 'R', T, xp))
         return cases
 
@@ -650,6 +777,7 @@ HIST_T = [('single', ((21, 'CH4'),), 'none', 'mol'), ('single', ((13, 'H2O'),), 
           ('S', ((6, 'CH4'), (5, 'CO'), (0, 'H2'), (3, 'CO')), 'none', 'mol'), ('Y', ((1, 'Glucose'), (4, 'Ethanol'), (8, 'Glucose')), 'none', 'mol'),
           ('S', ((0, 'H2'), (2, 'CH4')), 'nat', 'wt-set')]
 
+@rc.guard_build
 class History(System):
     name = 'c06.history'
     nontrivial_per_config = True
@@ -730,4 +858,4 @@ class History(System):
     def outcome(self, st, a, obs): return repr((st.config[0], st.config[2], st.config[3], a[0], obs[0], st.count >= 2))
 
 
-SYSTEMS = [DH(), DHSum(), Iso(), Adiabatic(), History()]
+SYSTEMS = [DH(), DHSum(), DHHistory(), Iso(), Adiabatic(), History()]
